@@ -377,12 +377,14 @@ class TileCreator(object):
             created_tiles = self._create_meta_tile(meta_tile)
         else:
             meta_tiles = []
-            meta_bboxes = set()
+            main_tiles = set()
             for tile in tiles:
                 meta_tile = self.meta_grid.meta_tile(tile.coord)
-                if meta_tile.bbox not in meta_bboxes:
+                # meta tiles can share the same bbox when a large meta_buffer
+                # gets limited to the grid bbox, so identify them by their tiles
+                if meta_tile.main_tile_coord not in main_tiles:
                     meta_tiles.append(meta_tile)
-                    meta_bboxes.add(meta_tile.bbox)
+                    main_tiles.add(meta_tile.main_tile_coord)
 
             created_tiles = self._create_meta_tiles(meta_tiles)
 
